@@ -94,3 +94,15 @@ def no_tracing():
         if is_tracing():
             return NoTracing()
     return contextlib.nullcontext()
+
+
+def concretize(value):
+    """Force a CrossHair symbolic value to one concrete value on this path (the engine then enumerates the values
+    path by path - declared enumeration). Identity outside CrossHair."""
+    import sys
+    if 'crosshair' in sys.modules:
+        from crosshair.tracers import is_tracing
+        if is_tracing():
+            from crosshair.core import realize
+            return realize(value)
+    return value
